@@ -149,6 +149,7 @@ func linEqualUpToSign(a, b Lin) bool {
 }
 
 func runC28(c *Ctx) {
+	runC28Extra(c)
 	const pk = "icon/merkle/hexary"
 	maxCh, _ := c.constVal(pk, "maxChildren")
 	bitsPer := int64(0)
@@ -594,6 +595,167 @@ func runC28(c *Ctx) {
 			}
 			// short proofs
 			c.requireAt("C28.verify", "too short proofs are rejected", news[0].Instr, wGE("len(proof) ≥ minLen", 0, t(1, `^len\(\$2\)$`), t(-1, `minProofLenForKey\(\$0\)$`)))
+		}
+	}
+}
+
+// runC28Extra: digit arithmetic of the base-16 counter uses one radix
+// (mask = loop bound = 2^shift − 1); the memoised node hash is dropped by
+// every mutation of the node's bytes; the "single entry" test of the top root
+// looks at the root after the pending carry was added; the accumulator record
+// is written after the last change to it; the minimum proof length is clamped
+// to the tree's level.
+func runC28Extra(c *Ctx) {
+	const pkg = "icon/merkle/hexary"
+	// (1) powerOf16
+	if f := c.mustFn(pkg, "", "powerOf16"); f != nil {
+		var bound, mask, shift int64 = -1, -1, -1
+		var endsOne bool
+		for _, b := range f.Blocks {
+			for _, in := range b.Instrs {
+				bo, ok := in.(*ssa.BinOp)
+				if !ok {
+					continue
+				}
+				k, isK := constInt(bo.Y)
+				if !isK {
+					continue
+				}
+				switch bo.Op {
+				case token.GTR:
+					bound = k
+				case token.GEQ:
+					bound = k - 1
+				case token.AND:
+					mask = k
+				case token.SHR:
+					shift = k
+				case token.EQL:
+					if k == 1 {
+						endsOne = true
+					}
+				}
+			}
+		}
+		okR := shift > 0 && mask == (1<<uint(shift))-1 && bound == mask && shift == 4 && endsOne
+		c.check(okR, "C28.radix", "powerOf16: loop bound, digit mask and shift describe one base-16 digit", f.Pos(), fmt.Sprintf("n > %#x, n & %#x, n >> %d, ends at 1", bound, mask, shift), fmt.Sprintf("loop bound %#x, digit mask %#x, shift %d do not describe the same radix: exact powers of 16 are misclassified and a rewind to such a length loses the roots", bound, mask, shift))
+	}
+	// (2) memo invalidation
+	nMut := 0
+	for _, f := range c.pkgFuncs(pkg) {
+		if f.Signature.Recv() == nil || namedOf(f.Signature.Recv().Type()) != "node" {
+			continue
+		}
+		for _, st := range fieldStores([]*ssa.Function{f}, "node", "bytes") {
+			nMut++
+			_, stale := pathAvoiding(f, st.Store, isReturn, func(in ssa.Instruction) bool {
+				s2, ok := in.(*ssa.Store)
+				if !ok {
+					return false
+				}
+				fa, ok := s2.Addr.(*ssa.FieldAddr)
+				return ok && namedOf(fa.X.Type()) == "node" && fieldName(fa.X.Type(), fa.Field) == "_hash"
+			})
+			if stale {
+				// accepted when the reset precedes the mutation in the same function on every path
+				reset := false
+				for _, h := range fieldStores([]*ssa.Function{f}, "node", "_hash") {
+					if isNilConst(h.Store.Val) && dominatesInstr(h.Store, st.Store) {
+						reset = true
+					}
+				}
+				stale = !reset
+			}
+			c.check(!stale, "C28.memo", fnName(f)+" drops the memoised hash when it changes the node's bytes", st.Store.Pos(), "_hash = nil", "the node's bytes change while the memoised hash survives: a header computed after the next Add is that of the shorter sequence")
+		}
+	}
+	if nMut < 4 {
+		c.undecided("C28.memo", "mutations of node.bytes", token.NoPos, fmt.Sprintf("expected ≥4, found %d", nMut))
+	}
+	// (3) single-entry test after the carry; (4) record written last
+	for _, nm := range []string{"GetMerkleHeader", "Finalize"} {
+		f := c.fn(pkg, "accumulator", nm)
+		if f == nil {
+			continue
+		}
+		for _, ln := range c.calls(f, byCallee("node).Len")) {
+			r, _ := callArgs(ln.Common())
+			for _, ad := range c.calls(f, byCallee("node).Add")) {
+				r2, _ := callArgs(ad.Common())
+				if render(r) != render(r2) {
+					continue
+				}
+				h := loopHeaderOf(ln.Instr.Block())
+				_, later := pathAvoiding(f, ln.Instr, func(in ssa.Instruction) bool { return in == ssa.Instruction(ad.Instr) }, func(in ssa.Instruction) bool {
+					return h != nil && in == h.Instrs[0]
+				})
+				c.check(!later, "C28.header-carry", nm+": the root's length is read after the pending carry was added", ln.Pos(), "Add(carry) precedes Len()", "the single-entry test reads the root's length before the carry of the lower roots is added to it: for lengths 16^k < n < 2·16^k the header is that of the first 16^k hashes only")
+			}
+		}
+	}
+	nSet := 0
+	for _, f := range c.pkgFuncs(pkg) {
+		if f.Signature.Recv() == nil || namedOf(f.Signature.Recv().Type()) != "accumulator" {
+			continue
+		}
+		for _, cs := range c.calls(f, byMethod("Set")) {
+			_, a := callArgs(cs.Common())
+			if len(a) != 2 || render(a[1]) != "&$r.data" {
+				continue
+			}
+			nSet++
+			late := ""
+			for _, b := range f.Blocks {
+				for _, in := range b.Instrs {
+					st, ok := in.(*ssa.Store)
+					if !ok || !strings.HasPrefix(render(st.Addr), "&$r.data") {
+						continue
+					}
+					if _, after := pathAvoiding(f, cs.Instr, func(x ssa.Instruction) bool { return x == ssa.Instruction(st) }, nil); after {
+						late = c.pos(st.Pos())
+					}
+				}
+			}
+			c.check(late == "", "C28.persist-last", fnName(f)+" writes the accumulator record after the last change to it", cs.Pos(), "no later store to ba.data", "ba.data is still modified at "+late+" after the record was written: the stored record is not the state the object is in, and a re-opened accumulator continues from another sequence")
+		}
+	}
+	if nSet < 2 {
+		c.undecided("C28.persist-last", "accumulator record writes", token.NoPos, fmt.Sprintf("expected ≥2 (Add, SetLen), found %d", nSet))
+	}
+	// (5) clamp
+	if f := c.mustFn(pkg, "merkleTree", "minProofLenForKey"); f != nil {
+		n := 0
+		for _, e := range exitAlts(f) {
+			for _, fl := range flowsOf(e.Results[0], nil) {
+				n++
+				if render(fl.Src) == "$r.level" {
+					c.ok("C28.proof-len", "minimum proof length: the tree level", e.pos(), "level")
+					continue
+				}
+				gs := append(append([]Guard{}, e.Guards...), fl.Guards...)
+				// want level − src ≥ 0 as a linear form over the same atoms the guards use
+				target := Lin{T: map[string]int64{"$r.level": 1}}.add(linOf(fl.Src), -1)
+				okB := false
+				for _, g := range gs {
+					p := predOf(g)
+					if p.Kind != "ge" || len(p.L.T) != len(target.T) {
+						continue
+					}
+					same := true
+					for a, co := range target.T {
+						if p.L.T[a] != co {
+							same = false
+						}
+					}
+					if same && p.L.K <= target.K {
+						okB = true
+					}
+				}
+				c.check(okB, "C28.proof-len", "minimum proof length is clamped to the tree level", e.pos(), "min(formula, level)", "the minimum proof length "+render(fl.Src)+" is returned without the clamp to the level (guards: "+guardsString(gs)+"): for key 0 the formula gives 15 and the genuine proof of the first hash is rejected as too short")
+			}
+		}
+		if n < 2 {
+			c.undecided("C28.proof-len", "minProofLenForKey", f.Pos(), fmt.Sprintf("expected 2 flows, found %d", n))
 		}
 	}
 }
